@@ -500,3 +500,5 @@ B('C02.ecdsa-overflow-escapes', ['C02'], [(P + 'ssh/key.py', "        except (Va
   "        except ValueError as e:\n")], mention=['OverflowError'])
 B('C08.dsa-width-from-prime-alone', ['C08', 'C05'], [(P + 'dnsrec/record.py', "        key_size = (max(key_params.prime, key_params.generator, key_params.public_key_value).bit_length() + 7) // 8\n",
   "        key_size = (key_params.prime.bit_length() + 7) // 8\n")], mention=['DSA'])
+B('C01.flags-default-of-another-kind', ['C01'], [(P + 'tls/mysql.py', "    states = attr.ib(default=attr.Factory(set), validator=attr.validators.deep_iterable(",
+                                                  "    states = attr.ib(default=attr.Factory(dict), validator=attr.validators.deep_iterable(")], mention=['default-kind'])
